@@ -22,6 +22,10 @@ func init() {
 			"(\"the same settling period\"). A failed UpdateStatus after a release drops the computed ReprocessAll (fault sequence; noted in DESIGN.md O-1).",
 		Run: runC07,
 		Mutants: []Mutant{
+			{Name: "unassign-returns-early-for-removed-pool", File: "internal/allocator/allocator.go",
+				Old: "\tal := a.allocated[svc]\n\tdelete(a.allocated, svc)\n", New: "\tal := a.allocated[svc]\n\tdelete(a.allocated, svc)\n\tif _, ok := a.pools.ByName[al.pool]; !ok {\n\t\tdeleteStatsFor(al.pool)\n\t\treturn\n\t}\n", Expect: "UNASSIGN-COMPLETE"},
+			{Name: "key-gain-does-not-reprocess", File: "controller/main.go",
+				Old: "\tif prevAllocKey != newAllocKey {", New: "\tif prevAllocKey != \"\" && prevAllocKey != newAllocKey {", Expect: "RELEASE-REPROCESS"},
 			{Name: "delete-returns-success", File: "controller/main.go",
 				Old: "\t\t\t// check for newly feasible balancers.\n\t\t\treturn controllers.SyncStateReprocessAll", New: "\t\t\t// check for newly feasible balancers.\n\t\t\treturn controllers.SyncStateSuccess", Expect: "RELEASE-REPROCESS"},
 			{Name: "cursor-breaks-on-busy-address", File: "internal/allocator/allocator.go",
